@@ -1,1 +1,182 @@
-(* C07_tac placeholder *)
+(* C07_tac.v — tactics and the map-lifting lemmas used by the twin proofs.  No generated code here. *)
+From Coq Require Import Reals List Lra Lia.
+From AhrsLib Require Import Base.
+Import ListNotations.
+Open Scope R_scope.
+
+(* ---- lifting a row-wise equality to all N.  `batch brow rows` is the Gallina model of an array entry point
+   whose NumPy code treats the row axis by broadcasting / by a Python loop: the map of its row function. *)
+Definition batch {Row Out : Type} (brow : Row -> Out) (rows : list Row) : list Out := map brow rows.
+
+Lemma batch_is_map_single {Row Out : Type} (single brow : Row -> Out) (rows : list Row) :
+  (forall r, In r rows -> brow r = single r) -> batch brow rows = map single rows.
+Proof.
+  induction rows as [|r rs IH]; intros H; [reflexivity|].
+  unfold batch in *. simpl. rewrite (H r (or_introl eq_refl)), IH; [reflexivity|].
+  intros r' Hin. apply H. right; exact Hin.
+Qed.
+
+Lemma batch_nth {Row Out : Type} (single brow : Row -> Out) (rows : list Row) (i : nat) (d : Row) :
+  (forall r, In r rows -> brow r = single r) -> (i < length rows)%nat ->
+  nth i (batch brow rows) (brow d) = single (nth i rows d).
+Proof. intros H Hi. unfold batch. rewrite map_nth. apply H. apply nth_In. exact Hi. Qed.
+
+Lemma batch_length {Row Out : Type} (brow : Row -> Out) (rows : list Row) : length (batch brow rows) = length rows.
+Proof. apply map_length. Qed.
+
+Lemma batch_one {Row Out : Type} (single brow : Row -> Out) (r : Row) : brow r = single r -> batch brow [r] = [single r].
+Proof. intros H. unfold batch. simpl. rewrite H. reflexivity. Qed.
+
+(* rows of the different twins *)
+Definition row4 := (R * R * R * R)%type.
+Definition row3 := (R * R * R)%type.
+Definition row6 := (R * R * R * R * R * R)%type.
+Definition row8 := (R * R * R * R * R * R * R * R)%type.
+Definition row9 := (R * R * R * R * R * R * R * R * R)%type.
+Definition app4 {A} (f : R -> R -> R -> R -> A) (r : row4) : A := let '(a, b, c, d) := r in f a b c d.
+Definition app3 {A} (f : R -> R -> R -> A) (r : row3) : A := let '(a, b, c) := r in f a b c.
+Definition app6 {A} (f : R -> R -> R -> R -> R -> R -> A) (r : row6) : A := let '(a, b, c, d, e, g) := r in f a b c d e g.
+Definition app8 {A} (f : R -> R -> R -> R -> R -> R -> R -> R -> A) (r : row8) : A :=
+  let '(a, b, c, d, e, g, h, i) := r in f a b c d e g h i.
+Definition app9 {A} (f : R -> R -> R -> R -> R -> R -> R -> R -> R -> A) (r : row9) : A :=
+  let '(a, b, c, d, e, g, h, i, j) := r in f a b c d e g h i j.
+
+(* ---- facts about sqrt made available to lra *)
+Ltac pose_sqrt_pos :=
+  repeat match goal with
+  | |- context [sqrt ?e] =>
+      lazymatch goal with H : 0 <= sqrt e |- _ => fail | _ => pose proof (sqrt_pos e) end
+  | _ : context [sqrt ?e] |- _ =>
+      lazymatch goal with H : 0 <= sqrt e |- _ => fail | _ => pose proof (sqrt_pos e) end
+  end.
+
+Lemma sqrt_pos_arg x : 0 < sqrt x -> 0 < x.
+Proof.
+  intros H. destruct (Rlt_dec 0 x) as [|N]; [assumption|].
+  rewrite sqrt_neg_0 in H by lra. lra.
+Qed.
+
+(* a guard  0 < e  of the theorem gives  0 < sqrt e *)
+Ltac pos_sqrt_hyps :=
+  repeat match goal with
+  | H : 0 < ?e |- _ =>
+      lazymatch e with
+      | sqrt _ => fail
+      | _ => lazymatch goal with _ : 0 < sqrt e |- _ => fail | _ => pose proof (sqrt_lt_R0 e H) end
+      end
+  end.
+
+(* name n := sqrt e when 0 < sqrt e or 0 <> sqrt e is known: gives n*n = e and 0 < n *)
+Ltac name_pos_sqrt :=
+  match goal with
+  | H : 0 < sqrt ?e |- _ =>
+      let n := fresh "n" in let Hn := fresh "Hn" in let Hp := fresh "Hp" in
+      assert (Hn : sqrt e * sqrt e = e) by (apply sqrt_sqrt; apply Rlt_le; apply sqrt_pos_arg; exact H);
+      assert (Hp : 0 < sqrt e) by exact H; clear H;
+      set (n := sqrt e) in *
+  | H : 0 <> sqrt ?e |- _ =>
+      let H' := fresh in assert (H' : 0 < sqrt e) by (pose proof (sqrt_pos e); lra); clear H
+  end.
+
+(* cos t * cos t = 1 - sin t * sin t for every cosine in the goal *)
+Lemma cos2_sin2 t : cos t * cos t = 1 - sin t * sin t.
+Proof. pose proof (sin2_cos2 t) as H. unfold Rsqr in H. lra. Qed.
+Ltac trig_hyps :=
+  repeat match goal with
+  | |- context [cos ?t] =>
+      lazymatch goal with _ : cos t * cos t = 1 - sin t * sin t |- _ => fail | _ => pose proof (cos2_sin2 t) end
+  end.
+
+(* ring modulo every hypothesis of the form  a * a = _  (norms named above, cosines) *)
+Ltac hringN :=
+  first
+  [ ring
+  | match goal with H1 : ?a1 * ?a1 = _, H2 : ?a2 * ?a2 = _, H3 : ?a3 * ?a3 = _, H4 : ?a4 * ?a4 = _, H5 : ?a5 * ?a5 = _, H6 : ?a6 * ?a6 = _ |- _ =>
+      ring [H1 H2 H3 H4 H5 H6] end
+  | match goal with H1 : ?a1 * ?a1 = _, H2 : ?a2 * ?a2 = _, H3 : ?a3 * ?a3 = _, H4 : ?a4 * ?a4 = _, H5 : ?a5 * ?a5 = _ |- _ =>
+      ring [H1 H2 H3 H4 H5] end
+  | match goal with H1 : ?a1 * ?a1 = _, H2 : ?a2 * ?a2 = _, H3 : ?a3 * ?a3 = _, H4 : ?a4 * ?a4 = _ |- _ => ring [H1 H2 H3 H4] end
+  | match goal with H1 : ?a1 * ?a1 = _, H2 : ?a2 * ?a2 = _, H3 : ?a3 * ?a3 = _ |- _ => ring [H1 H2 H3] end
+  | match goal with H1 : ?a1 * ?a1 = _, H2 : ?a2 * ?a2 = _ |- _ => ring [H1 H2] end
+  | match goal with H1 : ?a1 * ?a1 = _ |- _ => ring [H1] end ].
+
+(* rewrite sqrt e to 1 (goal and hypotheses) whenever e = 1 follows *)
+Ltac prove_unit := field_simplify_eq; [ hringN | try lra .. ].
+Ltac rw_unit e :=
+  let E := fresh in assert (E : e = 1) by prove_unit; rewrite E in *; clear E; rewrite sqrt_1 in *.
+Ltac unit_norm :=
+  repeat match goal with
+  | |- context [sqrt ?e] => rw_unit e
+  | _ : context [sqrt ?e] |- _ => rw_unit e
+  end.
+Ltac abs0 := try (replace (1 - 1) with 0 in * by ring); try rewrite Rabs_R0 in *.
+
+(* decide the outcome gates one by one; contradictory combinations are closed by lra with sqrt facts *)
+Ltac close_absurd := exfalso; pose_sqrt_pos; lra.
+(* split on the OUTERMOST decision of either side (never on an inner one: that would multiply the cases) *)
+Ltac head_dec :=
+  match goal with
+  | |- (if ?c then _ else _) = _ => destruct c
+  | |- _ = (if ?c then _ else _) => destruct c
+  | |- (if ?c then _ else _) = _ \/ _ => destruct c
+  | |- _ = (if ?c then _ else _) \/ _ => destruct c
+  | |- _ \/ (if ?c then _ else _) = _ => destruct c
+  | |- _ \/ _ = (if ?c then _ else _) => destruct c
+  end.
+Ltac dec1 := head_dec; try close_absurd.
+
+(* ---- make the arguments of transcendental applications syntactically equal when ring proves them equal *)
+Ltac merge1 f :=
+  repeat match goal with
+  | |- context [f ?a] =>
+      match goal with
+      | |- context [f ?c] =>
+          tryif constr_eq a c then fail else
+          (let H := fresh in assert (H : f c = f a) by (f_equal; timeout 2 ring); rewrite H; clear H)
+      end
+  end.
+Ltac merge2 f :=
+  repeat match goal with
+  | |- context [f ?a ?b] =>
+      match goal with
+      | |- context [f ?c ?d] =>
+          tryif (constr_eq a c; constr_eq b d) then fail else
+          (let H := fresh in assert (H : f c d = f a b) by (f_equal; timeout 2 ring); rewrite H; clear H)
+      end
+  end.
+Ltac merge_trans :=
+  repeat (progress (merge2 atan2; merge1 sin; merge1 cos; merge1 asin; merge1 acos; merge1 sqrt; merge1 atan)).
+
+(* final step on  Val [..] = Val [..]  *)
+Ltac same_val := first [ reflexivity | val_eq; first [ reflexivity | ring | (field; try lra) | (field_simplify_eq; [hringN | try lra ..]) ] ].
+
+(* the whole twin proof: both regenerated definitions already unfolded in the goal *)
+Ltac twin_core :=
+  repeat dec1; try reflexivity;
+  unit_norm; repeat name_pos_sqrt; unit_norm; abs0; try (exfalso; lra); same_val.
+Ltac twin_q := cbv zeta; pos_sqrt_hyps; twin_core.
+(* variant for twins whose two copies order a sum or a product differently inside sqrt / sin / cos / atan2 *)
+Ltac twin_m := cbv zeta; pos_sqrt_hyps; trig_hyps; merge_trans; twin_core.
+(* variant that merges after the decisions (cheaper: the merged terms are the leaves only) *)
+Ltac twin_dm :=
+  cbv zeta; pos_sqrt_hyps; repeat dec1; try reflexivity; merge_trans; try reflexivity;
+  unit_norm; repeat name_pos_sqrt; unit_norm; abs0; try (exfalso; lra); same_val.
+(* variant that only merges atan2 arguments (Tilt: the yaw is atan2(-by, bx) in one copy, atan2(my2, mx3) in the other) *)
+Ltac twin_a2 :=
+  cbv zeta; pos_sqrt_hyps; repeat dec1; try reflexivity; merge2 atan2; same_val.
+(* name an innermost atan2 application (one whose arguments contain no atan2): shrinks the nested Tilt terms *)
+Ltac no_atan2 t := lazymatch t with context [atan2 _ _] => fail | _ => idtac end.
+Ltac set_inner_atan2 :=
+  match goal with
+  | |- context [atan2 ?a ?b] => no_atan2 a; no_atan2 b; let e := fresh "e" in set (e := atan2 a b) in *
+  end.
+(* Tilt quaternion: roll and pitch are the two innermost atan2 (identical in both copies); then merge the yaw *)
+Ltac twin_tilt :=
+  cbv zeta; pos_sqrt_hyps; repeat dec1; try reflexivity; set_inner_atan2; set_inner_atan2; merge2 atan2; same_val.
+(* variant for trigonometric twins: the sines and cosines become variables c, s with c*c = 1 - s*s *)
+Ltac abstract_trig :=
+  repeat match goal with
+  | |- context [cos ?t] => let c := fresh "c" in set (c := cos t) in *
+  | |- context [sin ?t] => let s := fresh "s" in set (s := sin t) in *
+  end.
+Ltac twin_t := cbv zeta; pos_sqrt_hyps; trig_hyps; abstract_trig; twin_core.
